@@ -97,6 +97,9 @@ def bar_candidates(n, extras=True):
             cs.append(cand(G[k] + 10, "q", "A", 99 + 4 * k, 100 + 4 * k))        # a second quote inside the window
         cs.append(cand(G[0] + 1, "q", "B", 50, 52))
         cs.append(cand(G[1] + 10, "x"))
+        # a revised print: same contract, same stamp as the quote exactly at the second bound, inserted later - it is the last
+        # quote stamped <= t + latency
+        cs.append(cand(G[1] + L, "q", "A", 111, 113))
     return cs
 
 
@@ -113,7 +116,7 @@ def c08_models(tier, null="in_space"):
     # repeated / abandoned episodes on one environment: the queue of delayed decisions starts afresh at every reset
     ms.append(env_model("fifo-resets", G[:n], bar_candidates(n, extras=False) + [cand(G[0] + 10, "q", "A", 90, 91),
                                                                                  cand(G[1] + L, "q", "A", 92, 93)],
-                        range(1, n + 1), 2, [L], [FOLD_ALL], [(False, -1)], delays=(1, 2), spaces=("box",),
+                        range(1, n + 1), 2, [L], [FOLD_ALL], [(False, -1)], delays=(1, 2), spaces=("box", "discoff"),
                         maxcalls=n + 2, reset_anywhere=True, invariants=C08_INV, trade=True, null=null))
     # Markovian transmitter, episodes of a requested length starting at a drawn position, then episodes stepping through
     # the earlier starting points: what an execution is priced at never depends on where earlier episodes began
